@@ -1,3 +1,115 @@
-(* placeholder, replaced by the real theorems *)
-Theorem placeholder_C09 : True. Proof. exact I. Qed.
-Print Assumptions placeholder_C09.
+(* C09 — turn_end hooks run once per successful choice, in order, until unhooked.
+   Property theorems only (proofs: Proofs/EngineHooks.v, Proofs/EngineSem.v).  They hold for every story and
+   every author-code oracle.  `hook_runs lg` is the list of hooked passages run in the log segment lg
+   (ghost log of the model); `active s` is the turn_end registration list in state s; `defined st p` says that
+   passage p exists in the story (a hook on a missing passage is skipped, as in the implementation). *)
+From Coq Require Import String Ascii List Bool ZArith Arith.
+From Bardic Require Import PyStr Value Compiled Engine EngineBase EngineNav EngineParams EngineSem EngineHooks
+     EngineUndo PyMini EngineCheck.
+Import ListNotations.
+
+(* after every successful ordinary choice: the navigation itself runs no hook, and then each hooked passage
+   registered at that moment runs, in first-registered-first-run order ... *)
+Theorem hooks_once_per_choice : forall orc ctxkeys st ch o s s' o',
+  String.eqb (ch_target (rc_choice ch)) "@join" = false ->
+  choose_nav orc ctxkeys st ch o s = (s', Ok o') ->
+  exists s1 lg1 lg2,
+    log s1 = log s ++ lg1 /\ hook_runs lg1 = [] /\
+    log s' = log s1 ++ lg2 /\ hook_runs lg2 = filter (defined st) (active s1).
+Proof. exact choose_nav_hooks. Qed.
+Print Assumptions hooks_once_per_choice.
+
+(* ... and "exactly once": in every reachable state no passage is registered twice for an event
+   (registering twice has no additional effect), so the list run above has no duplicates *)
+Theorem registrations_have_no_duplicates : forall orc ctxkeys st e,
+  reach orc ctxkeys st e -> hooks_nodup (hooks (ec e)).
+Proof. intros orc ctxkeys st e H. exact (proj1 (HInv_reach orc ctxkeys st e H)). Qed.
+Print Assumptions registrations_have_no_duplicates.
+
+Theorem register_idempotent : forall h ev p,
+  register_hook (register_hook h ev p) ev p = register_hook h ev p.
+Proof. exact register_idempotent_lemma. Qed.
+Print Assumptions register_idempotent.
+
+(* a new registration goes last: first registered, first run *)
+Theorem register_is_fifo : forall h ev p l,
+  lookup ev h = Some l -> str_in p l = false -> lookup ev (register_hook h ev p) = Some (l ++ [p]).
+Proof. exact register_appends_last. Qed.
+Print Assumptions register_is_fifo.
+
+(* the turn_end run, also after an @join choice and in general: every hooked passage that is registered when
+   the event fires and exists runs once, in order; the list is a snapshot taken when the event fires, so a hook
+   that unhooks itself (or another) while running takes effect from the next turn on *)
+Theorem turn_end_runs_registered_hooks : forall orc ctxkeys st o s s' o',
+  after_hooks orc ctxkeys st o s = (s', Ok o') ->
+  (exists lg, log s' = log s ++ lg /\ hook_runs lg = filter (defined st) (active s)) /\
+  (exists h, o' = with_hook_output o h).
+Proof. exact after_hooks_log. Qed.
+Print Assumptions turn_end_runs_registered_hooks.
+
+Theorem self_unhook_next_turn : forall orc ctxkeys st s,
+  trigger_event orc ctxkeys st "turn_end" s =
+  match lookup "turn_end" (hooks (nc s)) with
+  | None => (s, Ok ""%string)
+  | Some a => bind (run_hooks orc ctxkeys st a) (fun outs => ret (join (String "010"%char EmptyString) outs)) s
+  end.
+Proof. exact trigger_event_snapshot. Qed.
+Print Assumptions self_unhook_next_turn.
+
+(* unhooking removes that passage only: other events are untouched, and in its own event's list the others keep
+   their places (the list splits as a ++ p :: b and becomes a ++ b) *)
+Theorem unhook_only_that_one : forall h ev p l,
+  lookup ev h = Some l ->
+  lookup ev (unregister_hook h ev p) = Some (remove_first_str p l) /\
+  (List.In p l -> exists a b, l = a ++ p :: b /\ ~ List.In p a /\ remove_first_str p l = a ++ b) /\
+  (forall ev', String.eqb ev' ev = false -> lookup ev' (unregister_hook h ev p) = lookup ev' h).
+Proof.
+  intros h ev p l H. split; [apply unregister_this_event; exact H|]. split.
+  - apply remove_first_split.
+  - intros ev' Hne. apply unregister_other_event. exact Hne.
+Qed.
+Print Assumptions unhook_only_that_one.
+
+(* never on direct navigation ... *)
+Theorem no_hooks_on_goto : forall orc ctxkeys st spec s s' r,
+  goto orc ctxkeys st spec s = (s', r) -> exists lg, log s' = log s ++ lg /\ hook_runs lg = [].
+Proof. exact goto_no_hooks. Qed.
+Print Assumptions no_hooks_on_goto.
+
+(* ... nor on undo, redo, reset or read calls: they run nothing at all (the log is unchanged) *)
+Theorem no_hooks_on_undo_redo_reads : forall orc ctxkeys st e,
+  elog (fst (undo e)) = elog e /\ elog (fst (redo e)) = elog e /\
+  elog (reset_one_time e) = elog e /\ fst (step orc ctxkeys st e OpRead) = e.
+Proof.
+  intros orc ctxkeys st e. repeat split.
+  - unfold undo. destruct (undo_stack e); reflexivity.
+  - unfold redo. destruct (redo_stack e); reflexivity.
+Qed.
+Print Assumptions no_hooks_on_undo_redo_reads.
+
+(* hooks change neither the position, the used one-time choices, @join progress nor the scope stack *)
+Theorem hooks_keep_position : forall orc ctxkeys st o s s' r,
+  after_hooks orc ctxkeys st o s = (s', r) -> HFrame s s'.
+Proof. exact after_hooks_frame. Qed.
+Print Assumptions hooks_keep_position.
+
+(* text a hook produces is appended after the turn's own text; nothing else of the output changes *)
+Theorem hook_text_appended : forall o h,
+  h <> ""%string ->
+  o_content (with_hook_output o h) =
+  (if String.eqb (o_content o) "" then h
+   else (o_content o ++ String "010"%char (String "010"%char h))%string) /\
+  o_choices (with_hook_output o h) = o_choices o /\ o_pid (with_hook_output o h) = o_pid o /\
+  o_render (with_hook_output o h) = o_render o /\ o_input (with_hook_output o h) = o_input o.
+Proof. exact with_hook_output_content. Qed.
+Print Assumptions hook_text_appended.
+
+(* non-vacuity *)
+Example register_twice_example :
+  register_hook (register_hook (register_hook [] "turn_end" "Clock") "turn_end" "Poison") "turn_end" "Clock"
+  = [("turn_end"%string, ["Clock"%string; "Poison"%string])].
+Proof. vm_compute. reflexivity. Qed.
+Example unhook_middle_example :
+  unregister_hook [("turn_end"%string, ["A"%string; "B"%string; "C"%string])] "turn_end" "B"
+  = [("turn_end"%string, ["A"%string; "C"%string])].
+Proof. vm_compute. reflexivity. Qed.
